@@ -92,6 +92,11 @@ def rnd_desc(rng: random.Random, i: int) -> dict[str, Any]:
     return desc
 
 
+def _sync(desc: dict[str, Any], seed: int, i: int) -> dict[str, Any]:
+    from kv.world import syncify
+    return syncify(desc, random.Random(f'C11-sync-{seed}-{i}'))       # a share of the scenarios runs (some of) its handlers as threads
+
+
 def gen_cases(tier: str, seed: int):
     rng = random.Random(f'C11-{seed}')
     cases: list[dict[str, Any]] = []
@@ -124,7 +129,7 @@ def gen_cases(tier: str, seed: int):
                                                   'quiet': 700.0, 'horizon': 4000.0, 'timeline': [[0, 'start', 'op1'], [1, 'create', 'a', {'spec': {'x': 0}}]]}})
     n = 500 if tier == 'quick' else 25000
     for i in range(n):
-        cases.append({'name': f'rnd{i}', 'desc': rnd_desc(rng, i)})
+        cases.append({'name': f'rnd{i}', 'desc': _sync(rnd_desc(rng, i), seed, i)})
     return cases
 
 
